@@ -30,7 +30,7 @@ from harness import constraints_lib as CL
 warnings.filterwarnings("ignore", category=FutureWarning)      # re: "possible nested set" in pool patterns
 
 PROJECT = "constraints"
-PROPS = ["Octave.Props.C08"]
+PROPS = ["Octave.Props.C08", "Octave.Props.C08range"]
 CON = "octave_mcp/core/constraints.py"
 VAL = "octave_mcp/core/validator.py"
 ANCHORS = ([(CON, q) for q in [
